@@ -3,7 +3,13 @@
      int     a b eps depth  fam np p1..pnp  <fexpr>   -> value warn count trace...
      swap    a b eps depth  fam np p1..pnp  <fexpr>   -> value(a,b) warn count  value(b,a) warn count
      epssign a b eps depth  fam np p1..pnp  <fexpr>   -> value(eps) warn count  value(-eps) warn count
-     findeps a b prec       fam np p1..pnp  <fexpr>   -> epsilon *)
+     findeps a b prec       fam np p1..pnp  <fexpr>   -> epsilon
+     seq k <call>*k    several calls in one process, each answered with: value warn count min-abscissa max-abscissa
+        I a b eps depth fam np p.. <fexpr>   Integrate(f,a,b,eps,depth)
+        D a b eps       fam np p.. <fexpr>   Integrate(f,a,b,eps)               (default depth)
+        M a b           fam np p.. <fexpr>   Integrate(f,a,b,"Adaptive-Simpson")
+        F a b prec      fam np p.. <fexpr>   Find_Epsilon(f,a,b,prec)           (value = epsilon, 3 evaluations)
+        eps may be the token @ : the value returned by the latest F of the sequence (0 when there is none) *)
 open Common
 let trace_cap = 4500
 let skip_family r = let _ = word r in let n = integer r in for _ = 1 to n do ignore (num r) done
@@ -34,6 +40,29 @@ let handler r =
   | "findeps" -> let a = num r in let b = num r in let p = num r in
       skip_family r; let f = fun1 (parse_fexpr r) in
       put_f (find_epsilon fops f a b p)
+  | "seq" ->
+      let k = integer r in
+      let last = ref 0.0 in
+      let eps_tok () = match word r with "@" -> !last | w -> (match w with "nan" -> Float.nan | "inf" -> Float.infinity | "-inf" -> Float.neg_infinity | _ -> float_of_string w) in
+      let rec parse i = if i >= k then [] else begin
+        let c = match word r with
+          | "I" -> let a = num r in let b = num r in let eps = eps_tok () in let d = integer r in
+              skip_family r; let f = fun1 (parse_fexpr r) in CInt (f, a, b, eps, z_of_int d)
+          | "D" -> let a = num r in let b = num r in let eps = eps_tok () in
+              skip_family r; let f = fun1 (parse_fexpr r) in CDef (f, a, b, eps)
+          | "M" -> let a = num r in let b = num r in
+              skip_family r; let f = fun1 (parse_fexpr r) in CMeth (f, a, b)
+          | "F" -> let a = num r in let b = num r in let p = num r in
+              skip_family r; let f = fun1 (parse_fexpr r) in
+              last := find_epsilon fops f a b p; CFind (f, a, b, p)
+          | o -> failwith ("unknown_call_" ^ o) in
+        c :: parse (i + 1) end in
+      let cs = parse 0 in
+      List.iter (fun ((v, w), t) ->
+          put_f v; put_b w; put_i (List.length t);
+          put_f (List.fold_left (fun a x -> if x < a then x else a) Float.infinity t);
+          put_f (List.fold_left (fun a x -> if x > a then x else a) Float.neg_infinity t))
+        (run_seq fops () cs)
   | o -> put_w ("MODELERR unknown_op_" ^ o)
 
 let () = run handler
